@@ -167,6 +167,10 @@ impl<R> NsReader<R> {
     /// directly from the underlying reader, so nobody else would pop the scope that
     /// was pushed by the corresponding start tag
     pub(super) fn end_scope(&mut self) {
+        // If the previous event was an `Empty` or an `End` of a child, its scope
+        // is still open; close it first, otherwise the declarations of the skipped
+        // element would stay visible until the next read
+        self.pop();
         self.ns_resolver.pop();
     }
 
